@@ -273,6 +273,8 @@ func parse(ctx context.Context, tree *parser.Thrift, mode meta.ParseServiceMode,
 		}
 	}
 
+	// a base service can be reached through several combined services: each function is added once
+	added := map[*parser.Function]bool{}
 	for _, svc := range svcs {
 		sopts := opts
 		// pass origin annotations
@@ -294,6 +296,10 @@ func parse(ctx context.Context, tree *parser.Thrift, mode meta.ParseServiceMode,
 			funcs = findFuncs(funcs, methods)
 		}
 		for _, p := range funcs {
+			if added[p.fn] {
+				continue
+			}
+			added[p.fn] = true
 			injectAnnotations((*[]*parser.Annotation)(&p.fn.Annotations), next)
 			if err := addFunction(ctx, p.fn, p.tree, sDsc, structsCache, sopts); err != nil {
 				return nil, err
